@@ -65,6 +65,7 @@ fn requests(w: &World, rng: &mut Rng, k: usize) -> Vec<Value> {
         ("brc20_mine", json!([1, ts])),
         ("brc20_commitToDatabase", json!([])),
         ("brc20_clearCaches", json!([])),
+        ("brc20_clearCaches", json!([])),
         ("brc20_reorg", json!([h.saturating_sub(1)])),
         ("brc20_reorg", json!([h])),
         ("brc20_transact", json!(["0xc0", null, ts, ZERO_HASH, 0, "c11-tx", 2000, ZERO_HASH])),
@@ -72,7 +73,9 @@ fn requests(w: &World, rng: &mut Rng, k: usize) -> Vec<Value> {
     let mut out = vec![];
     // at least one writer in most scenarios, several readers, sometimes two writers (misbehaving indexer)
     for i in 0..k {
-        let (m, p) = if (i == 0 && rng.chance(5, 6)) || rng.chance(1, 5) { rng.pick(&writers).clone() } else { rng.pick(&readers).clone() };
+        // thread 0 is usually an indexer call, thread 1 often one too (clearCaches / commit / reorg racing with a
+        // transaction call is part of the statement), the rest mostly explorers
+        let (m, p) = if (i == 0 && rng.chance(5, 6)) || (i == 1 && rng.chance(1, 2)) || rng.chance(1, 5) { rng.pick(&writers).clone() } else { rng.pick(&readers).clone() };
         out.push(json!({"jsonrpc": "2.0", "id": i + 1, "method": m, "params": p}));
     }
     out
@@ -105,7 +108,7 @@ impl Prop for C11 {
         v["request_seed"] = json!(r.next());
         v["schedule_seed"] = json!(r.next());
         // several schedules of the same request set per run
-        v["schedules"] = json!(4);
+        v["schedules"] = json!(6);
         v
     }
     fn shrink(&self, case: &Value) -> Vec<Value> {
@@ -124,7 +127,7 @@ impl Prop for C11 {
         c
     }
     fn rule(&self) -> String {
-        "case = seeded preparation history, then a set of 2-4 concurrent requests (explorer reads incl. eth_getBlockByHash / debug_getRaw*(hash) / eth_call / eth_getLogs / txpool_*, and indexer writes deposit / call / deploy / finalise / mine / commit / clearCaches / reorg / transact) executed by real threads on the shared engine. Every SharedData acquire and release (engine database lock, block-under-construction lock, CONFIG) is a scheduling point at which exactly one thread is released, chosen by the seed (4 schedules per request set); the admission rule is std's writer-preferring RwLock (reader admitted iff no writer holds and none is queued; writer iff nobody holds), and the real try_read/try_write must then succeed. Violation = a state in which no thread is admissible although not all have finished (reported with the wait-for description and the schedule that reaches it), a request that never completes, or a failed liveness probe afterwards. distinct = sha256 of (ops, request set); states = distinct schedules (hash of the decision sequence); non-trivial = at least one writer and one reader were interleaved (>= 6 scheduling decisions)".into()
+        "case = seeded preparation history, then a set of 2-4 concurrent requests (explorer reads incl. eth_getBlockByHash / debug_getRaw*(hash) / eth_call / eth_getLogs / txpool_*, and indexer writes deposit / call / deploy / finalise / mine / commit / clearCaches / reorg / transact) executed by real threads on the shared engine. Every SharedData acquire and release (engine database lock, block-under-construction lock, CONFIG) is a scheduling point at which exactly one thread is released, chosen by the seed (6 request sets with one seeded schedule each per run); the admission rule is std's writer-preferring RwLock (reader admitted iff no writer holds and none is queued; writer iff nobody holds), and the real try_read/try_write must then succeed. Violation = a state in which no thread is admissible although not all have finished (reported with the wait-for description and the schedule that reaches it), a request that never completes, or a failed liveness probe afterwards. distinct = sha256 of (ops, request set); states = distinct schedules (hash of the decision sequence); non-trivial = at least one writer and one reader were interleaved (>= 6 scheduling decisions)".into()
     }
     fn assumptions(&self) -> Vec<String> {
         vec![
@@ -239,7 +242,11 @@ impl Prop for C11 {
                 }
                 if let Some(p) = resps.iter().find_map(|r| if let Resp::Panic(m) = r { Some(m.clone()) } else { None }) {
                     if !p.contains("Bitcoin RPC") {
-                        violation = Some(Violation::new("panic-in-concurrent-request", json!({"round": round, "requests": req_names, "panic": p, "schedule": choices})));
+                        // two indexer-side calls racing with each other is a client misbehaving; one writer among
+                        // explorers is the normal deployment
+                        let idx_calls = req_names.iter().filter(|m| m.starts_with("brc20_") && *m != "brc20_balance" && !m.starts_with("brc20_get")).count();
+                        let class = if idx_calls >= 2 { "panic-in-concurrent-request/racing-indexer-calls" } else { "panic-in-concurrent-request/single-writer" };
+                        violation = Some(Violation::new(class, json!({"round": round, "requests": req_names, "panic": p, "schedule": choices})));
                         break;
                     }
                 }
